@@ -47,12 +47,16 @@ type c04Sim struct {
 	prods []*c04Prod
 	ids   *gen.IDs
 	sent  map[string]string // every item ever offered (accepted into the exporter)
-	owner map[string]int    // item -> request number
-	nreq  int
+	// sentDeep: hash of each offered item's complete single-item form (gen.DeepItems)
+	sentDeep map[string]string
+	owner    map[string]int // item -> request number
+	nreq     int
 	// per request: returned?, error
 	reqDone  map[int]bool
 	reqErr   map[int]error
 	reqItems map[int]map[string]string
+	// deepChecked: highest batch number whose complete item contents have been compared
+	deepChecked int
 }
 
 func c04Config(tp *simkit.Tape) c04Cfg {
@@ -131,6 +135,12 @@ func runC04Sweep(r *simkit.Run) {
 			gen.Enrich(tp, p2, false)
 		}
 	}
+	wantDeep := gen.DeepItems(p1)
+	if p2 != nil {
+		for k, v := range gen.DeepItems(p2) {
+			wantDeep[k] = v
+		}
+	}
 	b1 := ad.marshal(p1)
 	var b2 []byte
 	want := ad.items(p1)
@@ -198,6 +208,7 @@ func runC04Sweep(r *simkit.Run) {
 			}
 			pl := ad.unmarshal(ob)
 			items := ad.items(pl)
+			deep := gen.DeepItems(pl)
 			for _, id := range sortedKeys(items) {
 				fp := items[id]
 				w, ok := want[id]
@@ -207,6 +218,8 @@ func runC04Sweep(r *simkit.Run) {
 				}
 				if w != fp {
 					r.Failf("identity", sig+":"+strings.Join(gen.DiffFields(w, fp), "+"), "max_size %d: item %s left the batcher with a different context in batch %d: entered as %s, left as %s", max, id, n+1, w, fp)
+				} else if wantDeep[id] != "" && deep[id] != wantDeep[id] {
+					r.Failf("identity", sig+":content", "max_size %d: item %s left MergeSplit in batch %d with a content or context that differs from what entered (hash of the complete single-item form %s -> %s)", max, id, n+1, wantDeep[id], deep[id])
 				}
 				if prev, dup := seen[id]; dup {
 					r.Failf("conservation", "duplicated-item", "max_size %d: item %s is in batch %d and in batch %d", max, id, prev, n+1)
@@ -248,7 +261,7 @@ func runC04(r *simkit.Run) {
 	r.Sample = cfg
 	queuebatch.VerifResetPools()
 	start := time.Now()
-	s := &c04Sim{r: r, cfg: cfg, ad: adapterByName(cfg.Signal), ids: &gen.IDs{Prefix: "i"}, sent: map[string]string{}, owner: map[string]int{},
+	s := &c04Sim{r: r, cfg: cfg, ad: adapterByName(cfg.Signal), ids: &gen.IDs{Prefix: "i"}, sent: map[string]string{}, sentDeep: map[string]string{}, owner: map[string]int{},
 		reqDone: map[int]bool{}, reqErr: map[int]error{}, reqItems: map[int]map[string]string{}}
 	s.be = newBackend(s.ad, func() int64 { return time.Now().UnixNano() })
 	s.be.evNow = func() int { return r.Events }
@@ -380,6 +393,9 @@ func (s *c04Sim) offer(p *c04Prod) {
 		gen.Enrich(s.r.Tape, payload, false) // fields of every kind and size for the byte accounting
 	}
 	items := s.ad.items(payload)
+	for k, v := range gen.DeepItems(payload) {
+		s.sentDeep[k] = v
+	}
 	s.nreq++
 	p.reqNo = s.nreq
 	p.offeredAt = s.r.Events
@@ -410,6 +426,11 @@ func (s *c04Sim) observe(ev string) {
 	// batch size bound + nothing invented / duplicated so far
 	seen := map[string]int{}
 	for _, c := range calls {
+		var deep map[string]string
+		if c.N > s.deepChecked {
+			deep = gen.DeepItems(c.Payload) // once per batch
+			s.deepChecked = c.N
+		}
 		for _, id := range sortedKeys(c.Items) {
 			fp := c.Items[id]
 			want, ok := s.sent[id]
@@ -419,6 +440,8 @@ func (s *c04Sim) observe(ev string) {
 			}
 			if want != fp {
 				r.Failf("identity", s.cfg.Signal+":"+strings.Join(gen.DiffFields(want, fp), "+"), "item %s left the batcher with a different context in batch %d: entered as %s, left as %s", id, c.N, want, fp)
+			} else if deep != nil && s.sentDeep[id] != "" && deep[id] != s.sentDeep[id] {
+				r.Failf("identity", s.cfg.Signal+":content", "item %s left the batcher in batch %d with a content or context that differs from what entered (same resource/scope/schema/metric fingerprint; hash of the complete single-item form %s -> %s)", id, c.N, s.sentDeep[id], deep[id])
 			}
 			if prev, dup := seen[id]; dup {
 				r.Failf("conservation", "duplicated-item", "item %s is in batch %d and in batch %d", id, prev, c.N)
